@@ -23,7 +23,7 @@ from report import Finding
 
 ROT3 = [(Fraction(1, 3), Fraction(2, 3), Fraction(2, 3)), (Fraction(2, 7), Fraction(-3, 7), Fraction(6, 7)), (Fraction(-4, 9), Fraction(1, 9), Fraction(8, 9))]
 GENERIC = [Fraction(3, 4), Fraction(-2, 5), Fraction(5, 7), Fraction(-1, 3), Fraction(7, 9), Fraction(2, 3), Fraction(-5, 8), Fraction(4, 11), Fraction(-3, 7), Fraction(1, 6)]
-TAN_ROT3 = {"SO3": 0, "SE3": 3, "Galilei": 7, "SE_2_3": 6, "SE_1_3": 3}
+TAN_ROT3 = {"SO3": 0, "SE3": 3, "Galilei": 7, "SE_2_3": 6, "SE_1_3": 3, "SE_3_3": 9}
 
 
 def direction(g, variant=0, _state=None):
@@ -210,6 +210,11 @@ def run(rep, tier, prop, names, tol, full_order=8, variants=1):
                         L, R = expected(nm, M1, M2, full_order)
                     mm, known = rays.first_mismatch(L, R, full_order)
                     results.append((mm, known, path))
+            except poly.Narrowing as ex:
+                rep.instance(rule, g.ctype, inst, ok=False, sample={"witness": fname, "identity": IDENT[nm][1]})
+                rep.violation(Finding(rule, g.ctype, inst, "%s: a value is narrowed to a lower floating-point precision inside this double-precision "
+                                      "operation (`%s`)" % (IDENT[nm][1], str(ex)[:80]), None, None, detail={"witness": fname}))
+                continue
             except (poly.Unsupported, ir.Unresolved) as ex:
                 rep.broke("%s (%s): cannot abstract into the series domain: %s" % (fname, inst, ex))
                 continue
